@@ -523,3 +523,84 @@ class Planner:
 
     def script(self):
         return list(self.ev)
+
+
+# ----------------------------------------------------------------------------- trace Spec (C06, C10)
+
+def run_trace(ctx, fw, scripts, obs):
+    """`Abverif.SessTrace.check` (through the driver) on traces observed elsewhere.
+    -> per script: list of (token index, violation string)"""
+    lines = [f"sesstrace {MODE[fw]} {len(sc)} " + " ".join(sc) + " " + " ".join(o) for sc, o in zip(scripts, obs)]
+    out = ctx.driver.run(lines)
+    res = []
+    for sc, o in zip(scripts, out):
+        if o == "bad-op":
+            raise RuntimeError("driver rejected trace of script: " + " ".join(sc))
+        if o.strip() == "ok":
+            res.append([])
+        else:
+            res.append([(int(x.split(":")[0]), x.split(":", 1)[1]) for x in o.split()])
+    return res
+
+
+def check_traces(ctx, res, items, owns, classify, frameworks=("twisted", "asyncio"), shrink=True, label="", prefix=1):
+    """items: list of (class label, script, spec_checked). Every script runs on every framework; each observation line
+    is compared with the Lean model (correspondence); for spec-checked scripts the implementation's trace is judged by
+    the Lean trace Spec; violations `owns` accepts are classified (`classify(script, index, violation, fw) -> key`),
+    shrunk (ddmin, same key) and reported."""
+    scripts = [it[1] for it in items]
+    by_key = {}
+    breaks = []
+    for fw in frameworks:
+        impl = run_impl(fw, scripts)
+        ctx.log(f"{label}{fw}: implementation ran {len(scripts)} scripts")
+        model = run_model(ctx, fw, scripts)
+        sidx = [i for i, it in enumerate(items) if it[2]]
+        verdicts = dict(zip(sidx, run_trace(ctx, fw, [scripts[i] for i in sidx], [impl[i] for i in sidx])))
+        ctx.log(f"{label}{fw}: model and trace spec ran")
+        for i, (sc_, a, m) in enumerate(zip(scripts, impl, model)):
+            res.evaluations += len(sc_)
+            res.traces_validated += 1
+            md = first_model_divergence(a, m)
+            if md is not None:
+                breaks.append({"stream": f"model vs {fw} implementation", "script": sc_, "event": md[0],
+                               "model": md[1], "implementation": md[2]})
+            for (j, v) in verdicts.get(i, []):
+                if not owns(v):
+                    continue
+                key = classify(sc_, j, v, fw)
+                cur = by_key.get(key)
+                if cur is None or len(sc_) < len(cur.script):
+                    by_key[key] = Divergence(fw, sc_, j, [v], a[j] if j < len(a) else "", key)
+                res.count("violation:" + key)
+    res.correspondence_breaks += breaks[:20]
+    res.count(label + "correspondence-breaks", len(breaks))
+    known = {k["key"] for k in core.load_known() if k.get("property") == ctx.prop and k.get("status", "open") == "open"}
+    servers = {}
+    for key, d in sorted(by_key.items()):
+        sc_ = d.script
+        if shrink and key not in known and len(sc_) > prefix + 1:
+            ctx.log(f"{label}shrinking {key} ({len(sc_)} events)")
+            if d.fw not in servers:
+                servers[d.fw] = ImplServer(d.fw)
+
+            def fails(cands, d=d, key=key):
+                a = servers[d.fw].run(cands)
+                good = [(c, o) for c, o in zip(cands, a) if len(o) == len(c)]
+                vs = run_trace(ctx, d.fw, [c for c, _ in good], [o for _, o in good]) if good else []
+                ok = {id(c): any(owns(v) and classify(c, j, v, d.fw) == key for j, v in vv) for (c, _), vv in zip(good, vs)}
+                return [ok.get(id(c), False) for c in cands]
+            sc_ = ddmin(sc_, fails, keep_prefix=prefix)
+            a = servers[d.fw].run([sc_])[0]
+            vv = run_trace(ctx, d.fw, [sc_], [a])[0]
+            hit = next(((j, v) for j, v in vv if owns(v) and classify(sc_, j, v, d.fw) == key), None)
+            if hit is not None:
+                d = Divergence(d.fw, sc_, hit[0], [hit[1]], a[hit[0]], key)
+        res.violations.append(core.Violation(
+            key,
+            f"{d.fw}: event #{d.index} `{d.script[d.index]}`: trace Spec verdict [{';'.join(d.expected)}]; "
+            f"the implementation did [{d.actual}]; script: {' '.join(d.script)}",
+            {"framework": d.fw, "script": d.script, "event_index": d.index, "verdict": d.expected, "actual": d.actual}))
+    for sv in servers.values():
+        sv.close()
+    return {"keys": sorted(by_key), "breaks": len(breaks)}
